@@ -7,7 +7,7 @@ command -v lake >/dev/null || { echo "lake not on PATH" >&2; exit 2; }
 # Generated/ must hold the facts of the tree the proofs were made on (a check run regenerates them anyway)
 cp lean/GeneratedBaseline/*.lean lean/PsutilModel/Generated/ 2>/dev/null || true
 python3 tools/gen_root.py
-(cd lean && lake build 2>&1 | tail -5)
+(cd lean && lake build 2>&1 | tail -5) || echo "WARNING: lake build reported failures; the affected checks will report them" >&2
 PYTHONPATH="$(pwd)" /venv/bin/python - <<'PY'
 from harness.common import build
 d, cached = build.build_ext(build.REPO)
